@@ -411,6 +411,10 @@ func init() {
 				st.Src = &gen.Src{Kind: gen.SAcct, Addr: gen.Acct("world")}
 			}
 		}
+		// segmented account names whose "source:destination" spellings coincide
+		if gen.Chance(t, "c05.colliding", 12) {
+			ec.Rename(gen.CollidingNames(1))
+		}
 		return ec
 	}
 }
